@@ -47,6 +47,13 @@ def gen(tier, seed):
         yield 'scrypt %s %s %d 1 1 %d' % (rng.data(rng.choice([0, 5, 70])) if n % 2 else rng.data(n), rng.data(n), rng.choice([1, 2]), rng.choice([16, 33, 64]))
         yield 'hkdf_extract %s %s %s' % (d, rng.data(n), rng.data((n * 7) % 141))
         yield 'hkdf_expand %s %s %s %d' % (d, rng.data(hl), rng.data(n), rng.choice([1, hl, 2 * hl + 1]))
+    # every output length: PBKDF2 dkLen 1..=200 (c = 1, 2), HKDF-Expand L 0..=300
+    for n in range(1, 201):
+        d = ('sha256', 'sha1', 'sha512')[n % 3]
+        yield 'pbkdf2 %s %s %s %d %d' % (d, rng.data(8), rng.data(8), 1 + n % 2, n)
+    for n in range(0, 301):
+        d = ('sha256', 'sha512', 'sha1')[n % 3]
+        yield 'hkdf_expand %s %s %s %d' % (d, rng.data(o.digest_fn(d)[2]), rng.data(rng.choice([0, 5, 40])), n)
     # PRFs whose output length is not a multiple of 4 / 8 / 16 bytes: HMAC over truncated BLAKE2, and keyed BLAKE2 itself as the PRF
     for d, hl in (('blake2s:25', 25), ('blake2b:30', 30), ('blake2b:1', 1), ('blake2s:7', 7), ('b2bmac:30', 30), ('b2bmac:64', 64), ('b2bmac:13', 13), ('b2smac:25', 25), ('b2smac:32', 32), ('b2smac:3', 3)):
         for c in (1, 2, 3, 10):
